@@ -151,11 +151,69 @@ type c08FileParams struct {
 	RGRows  int64 `json:"max_rows_per_row_group"` // 0: one row group
 	Version int   `json:"data_page_version"`
 	Batch   int   `json:"write_batch"`
+	// rows of each row group, comma separated (Flush after each; the rest of
+	// the rows goes to a last row group): row groups of uneven sizes
+	Flush string `json:"flush_after_rows,omitempty"`
+	// "" | footer | plaintext-footer, optionally followed by "+column-keys"
+	// (columns opt and s under their own key): modular encryption, every page
+	// is authenticated under its ordinal in the chunk
+	Enc string `json:"encryption,omitempty"`
 }
 
 type c08Open struct {
 	SkipIndex bool `json:"skip_page_index"`
 	Async     bool `json:"async"`
+	ReadBuf   int  `json:"read_buffer_size,omitempty"` // 0: the default (4 KiB)
+}
+
+var (
+	c08FooterKey = []byte("c08-footer-key-0")
+	c08ColumnKey = []byte("c08-column-key-1")
+)
+
+type c08Keys struct{}
+
+func (c08Keys) FooterKey([]byte) ([]byte, error) { return c08FooterKey, nil }
+func (c08Keys) ColumnKey(path []string, _ []byte) ([]byte, error) {
+	if len(path) == 1 && (path[0] == "opt" || path[0] == "s") {
+		return c08ColumnKey, nil
+	}
+	return c08FooterKey, nil
+}
+
+func c08EncOptions(enc string) ([]parquet.WriterOption, error) {
+	if enc == "" {
+		return nil, nil
+	}
+	mode, colKeys := strings.CutSuffix(enc, "+column-keys")
+	cfg := &parquet.EncryptionConfig{FooterKey: c08FooterKey, FileIdentifier: []byte("c08file!")}
+	switch mode {
+	case "footer":
+		cfg.EncryptedFooter = true
+	case "plaintext-footer":
+	default:
+		return nil, fmt.Errorf("unknown encryption mode %q", enc)
+	}
+	if colKeys {
+		cfg.ColumnKeys = map[string][]byte{"opt": c08ColumnKey, "s": c08ColumnKey}
+	}
+	return []parquet.WriterOption{parquet.WithEncryption(cfg)}, nil
+}
+
+// c08FlushSizes parses the Flush parameter.
+func c08FlushSizes(s string) ([]int, error) {
+	if s == "" {
+		return nil, nil
+	}
+	var out []int
+	for _, t := range strings.Split(s, ",") {
+		n, err := strconv.Atoi(t)
+		if err != nil || n <= 0 {
+			return nil, fmt.Errorf("bad flush_after_rows %q", s)
+		}
+		out = append(out, n)
+	}
+	return out, nil
 }
 
 // c08Case is a replayable case: how the file is made and opened, which reader
@@ -168,7 +226,126 @@ type c08Case struct {
 	Target string        `json:"target"` // pages | rows | reader | generic | multipages | multirows
 	RG     int           `json:"row_group"`
 	Col    int           `json:"column"`
-	Ops    []string      `json:"ops"`
+	// multipages / multirows: how the row groups of the file are combined with
+	// parquet.MultiRowGroup, e.g. "(((0,1),2),3)" = MultiRowGroup(MultiRowGroup(
+	// MultiRowGroup(rg0, rg1), rg2), rg3); "" = MultiRowGroup(all row groups).
+	// The leaves are all the row groups in file order, so that whatever the
+	// nesting the rows are those of the file.
+	Nest string   `json:"nest,omitempty"`
+	Ops  []string `json:"ops"`
+}
+
+// c08BuildNest combines the row groups as the nest expression says.
+func c08BuildNest(nest string, rgs []parquet.RowGroup) (parquet.RowGroup, error) {
+	if nest == "" {
+		return parquet.MultiRowGroup(rgs...), nil
+	}
+	pos, next := 0, 0
+	var parse func(depth int) (parquet.RowGroup, error)
+	parse = func(depth int) (parquet.RowGroup, error) {
+		if pos >= len(nest) || depth > 16 {
+			return nil, fmt.Errorf("bad nest %q", nest)
+		}
+		if nest[pos] != '(' {
+			start := pos
+			for pos < len(nest) && nest[pos] >= '0' && nest[pos] <= '9' {
+				pos++
+			}
+			i, err := strconv.Atoi(nest[start:pos])
+			if err != nil || i != next || i >= len(rgs) {
+				return nil, fmt.Errorf("bad nest %q: the leaves must be the row groups 0..%d in order", nest, len(rgs)-1)
+			}
+			next++
+			return rgs[i], nil
+		}
+		pos++
+		var children []parquet.RowGroup
+		for {
+			child, err := parse(depth + 1)
+			if err != nil {
+				return nil, err
+			}
+			children = append(children, child)
+			if pos < len(nest) && nest[pos] == ',' {
+				pos++
+				continue
+			}
+			if pos < len(nest) && nest[pos] == ')' {
+				pos++
+				return parquet.MultiRowGroup(children...), nil
+			}
+			return nil, fmt.Errorf("bad nest %q", nest)
+		}
+	}
+	rg, err := parse(0)
+	if err != nil {
+		return nil, err
+	}
+	if pos != len(nest) || next != len(rgs) {
+		return nil, fmt.Errorf("bad nest %q: the leaves must be the row groups 0..%d in order", nest, len(rgs)-1)
+	}
+	return rg, nil
+}
+
+// c08NestShapes: the shapes of depth 1..3 (and one of depth 4) over n >= 4
+// row groups: flat, left-deep, right-deep, pairs, a deep group in the middle,
+// a group wrapped in one-element groups, a flat group inside a deep one.
+func c08NestShapes(n int) []string {
+	if n < 4 {
+		return []string{""}
+	}
+	seq := func(from, to int) string { // "from,...,to-1"
+		var parts []string
+		for i := from; i < to; i++ {
+			parts = append(parts, strconv.Itoa(i))
+		}
+		return strings.Join(parts, ",")
+	}
+	rest := ""
+	if n > 4 {
+		rest = "," + seq(4, n)
+	}
+	return []string{
+		"",
+		"((0,1),(" + seq(2, n) + "))",
+		"(((0,1),2),3" + rest + ")",
+		"(0,(1,(" + seq(2, n) + ")))",
+		"(0,((1,2),3)" + rest + ")",
+		"((((0),1)),2,3" + rest + ")",
+		"((((0,1),2),3)" + rest + ")",
+		"((0,1,2),3" + rest + ")",
+	}
+}
+
+// c08RandomNest: a random bracketing of the row groups 0..n-1, at most depth
+// levels of MultiRowGroup.
+func c08RandomNest(rng interface{ Intn(int) int }, n, depth int) string {
+	var gen func(lo, hi, d int) string
+	gen = func(lo, hi, d int) string {
+		if hi-lo == 1 && (d == 0 || rng.Intn(4) != 0) {
+			return strconv.Itoa(lo)
+		}
+		if d == 0 {
+			var parts []string
+			for i := lo; i < hi; i++ {
+				parts = append(parts, strconv.Itoa(i))
+			}
+			return strings.Join(parts, ",")
+		}
+		// cut [lo, hi) into 1..3 runs, each a leaf, a flat run or a nested group
+		var parts []string
+		for lo < hi {
+			k := 1 + rng.Intn(hi-lo)
+			if k == 1 && rng.Intn(3) != 0 {
+				parts = append(parts, strconv.Itoa(lo))
+			} else {
+				parts = append(parts, "("+gen(lo, lo+k, d-1)+")")
+			}
+			lo += k
+		}
+		return strings.Join(parts, ",")
+	}
+	return "(" + gen(0, n, depth-1) + ")"
 }
 
 type c08Built struct {
@@ -192,30 +369,54 @@ func c08Build(p c08FileParams) (*c08Built, error) {
 	if p.RGRows > 0 {
 		opts = append(opts, parquet.MaxRowsPerRowGroup(p.RGRows))
 	}
+	encOpts, err := c08EncOptions(p.Enc)
+	if err != nil {
+		return nil, err
+	}
+	opts = append(opts, encOpts...)
+	flush, err := c08FlushSizes(p.Flush)
+	if err != nil {
+		return nil, err
+	}
 	w := parquet.NewGenericWriter[c08Row](&buf, opts...)
 	batch := p.Batch
 	if batch <= 0 {
 		batch = 7
 	}
-	for i := 0; i < p.Rows; {
-		k := batch
-		if i+k > p.Rows {
-			k = p.Rows - i
+	// the rows are written in batches; a batch ends where a row group is flushed
+	ends := []int{}
+	for at, g := 0, 0; g < len(flush) && at+flush[g] < p.Rows; g++ {
+		at += flush[g]
+		ends = append(ends, at)
+	}
+	ends = append(ends, p.Rows)
+	i := 0
+	for g, end := range ends {
+		for i < end {
+			k := batch
+			if i+k > end {
+				k = end - i
+			}
+			rows := make([]c08Row, k)
+			for j := range rows {
+				rows[j] = c08MakeRow(int64(i + j))
+			}
+			if _, err := w.Write(rows); err != nil {
+				return nil, err
+			}
+			i += k
 		}
-		rows := make([]c08Row, k)
-		for j := range rows {
-			rows[j] = c08MakeRow(int64(i + j))
+		if g < len(ends)-1 {
+			if err := w.Flush(); err != nil {
+				return nil, err
+			}
 		}
-		if _, err := w.Write(rows); err != nil {
-			return nil, err
-		}
-		i += k
 	}
 	if err := w.Close(); err != nil {
 		return nil, err
 	}
 	b := &c08Built{data: buf.Bytes()}
-	f, err := parquet.OpenFile(bytes.NewReader(b.data), int64(len(b.data)))
+	f, err := parquet.OpenFile(bytes.NewReader(b.data), int64(len(b.data)), c08DecOptions(p)...)
 	if err != nil {
 		return nil, err
 	}
@@ -271,6 +472,13 @@ func c08Build(p c08FileParams) (*c08Built, error) {
 	return b, nil
 }
 
+func c08DecOptions(p c08FileParams) []parquet.FileOption {
+	if p.Enc == "" {
+		return nil
+	}
+	return []parquet.FileOption{parquet.WithDecryption(c08Keys{})}
+}
+
 type c08OpenKey struct {
 	p c08FileParams
 	o c08Open
@@ -282,7 +490,7 @@ var c08Opened = map[c08OpenKey]*parquet.File{}
 // SkipPageIndex remembers a lazily loaded offset index, so such files are
 // opened afresh for every history.
 func c08OpenFile(b *c08Built, p c08FileParams, o c08Open) (*parquet.File, error) {
-	if !o.SkipIndex && !o.Async {
+	if !o.SkipIndex && !o.Async && o.ReadBuf == 0 {
 		return b.plain, nil
 	}
 	key := c08OpenKey{p, o}
@@ -291,9 +499,12 @@ func c08OpenFile(b *c08Built, p c08FileParams, o c08Open) (*parquet.File, error)
 			return f, nil
 		}
 	}
-	var opts []parquet.FileOption
+	opts := c08DecOptions(p)
 	if o.SkipIndex {
 		opts = append(opts, parquet.SkipPageIndex(true))
+	}
+	if o.ReadBuf > 0 {
+		opts = append(opts, parquet.ReadBufferSize(o.ReadBuf))
 	}
 	if o.Async {
 		opts = append(opts, parquet.FileReadMode(parquet.ReadModeAsync))
@@ -599,8 +810,8 @@ func c08CheckGoRow(got *c08Row, r int64) string {
 	return ""
 }
 func (t *c08GenericReader) seek(k int64) error { return t.r.SeekToRow(k) }
-func (t *c08GenericReader) reset() bool         { t.r.Reset(); return true }
-func (t *c08GenericReader) close()              { t.r.Close() }
+func (t *c08GenericReader) reset() bool        { t.r.Reset(); return true }
+func (t *c08GenericReader) close()             { t.r.Close() }
 
 func c08RunRows(t c08RowsTarget, N int64, cs *c08Case, res *c08Result) {
 	defer t.close()
@@ -718,14 +929,22 @@ func c08Exec(cs *c08Case) (res *c08Result, b *c08Built) {
 				res.fail("bad-op", "multipages needs at least two row groups")
 				return
 			}
-			mrg := parquet.MultiRowGroup(f.RowGroups()...)
+			mrg, err := c08BuildNest(cs.Nest, f.RowGroups())
+			if err != nil {
+				res.fail("bad-op", "%v", err)
+				return
+			}
 			c08RunPages(mrg.ColumnChunks()[cs.Col], b.total, 0, cs, res)
 		case "multirows":
 			if len(b.rgRows) < 2 {
 				res.fail("bad-op", "multirows needs at least two row groups")
 				return
 			}
-			mrg := parquet.MultiRowGroup(f.RowGroups()...)
+			mrg, err := c08BuildNest(cs.Nest, f.RowGroups())
+			if err != nil {
+				res.fail("bad-op", "%v", err)
+				return
+			}
 			t := &c08RowReader{r: mrg.Rows()}
 			c08RunRows(t, b.total, cs, res)
 		case "rows":
@@ -904,6 +1123,15 @@ func c08Without(cs *c08Case, op string) *c08Case {
 
 func c08Class(cs *c08Case, kind string) string {
 	cl := cs.Target + "-" + kind
+	if cs.Nest != "" {
+		cl += "-nested"
+	}
+	if cs.File.Enc != "" {
+		cl += "-encrypted"
+	}
+	if cs.Open.ReadBuf != 0 {
+		cl += "-read-buffer"
+	}
 	if c08Has(cs.Ops, "l") {
 		cl += "-lazy-index"
 	}
@@ -980,6 +1208,21 @@ func c08Run(c *core.Ctx, cs *c08Case, bucket string) bool {
 			u := c08Without(t, op)
 			if f, k := c08Fails(c, u); f {
 				t, kind = u, k
+			}
+		}
+	}
+	// the dimensions of the case that the failure does not need are dropped
+	// (the simpler file has the same rows; its page layout is its own)
+	for _, simpler := range []func(u *c08Case) bool{
+		func(u *c08Case) bool { ok := u.Nest != ""; u.Nest = ""; return ok },
+		func(u *c08Case) bool { ok := u.File.Enc != ""; u.File.Enc = ""; return ok },
+		func(u *c08Case) bool { ok := u.Open.ReadBuf != 0; u.Open.ReadBuf = 0; return ok },
+		func(u *c08Case) bool { ok := u.Open.Async; u.Open.Async = false; return ok },
+	} {
+		u := *t
+		if simpler(&u) {
+			if f, k := c08Fails(c, &u); f {
+				t, kind = &u, k
 			}
 		}
 	}
@@ -1161,7 +1404,7 @@ func c08CoqNats(xs []int64) string {
 }
 
 func runC08(c *core.Ctx) {
-	c.Res.Rule = "files of rows (id, optional, list, dictionary string, optional leaf in an optional group; every value identifies its row; the five columns have different page layouts) written with small pages (PageBufferSize 16..96), 1..4 row groups, data pages v1 and v2; opened with/without SkipPageIndex, sync/async. Histories over {ReadPage | ReadRows(n in 1,3,64,1000) | Reader.Read(one row), SeekToRow(k: 0, page and row-group boundaries +-1, N-1, N, N+3, random), load the offset index, Reset}: a corpus (the repaired defects first), ALL histories of length 4 (quick) / 5 (thorough) over a 9..12 letter alphabet on 22-row files, random histories up to length 40 on 300-row files; run on ColumnChunk.Pages (every column), RowGroup.Rows, NewReader (ReadRows and Read), NewGenericReader (Read), and the column pages (multiPages) and rows of MultiRowGroup over all row groups. Every per-operation output (first row and count of the page/batch, io.EOF) is compared with the extracted model of that layer (page cursor; rowGroupRows over the page layouts of all five columns; multiPages; reader/Reader/GenericReader), a sample also with the position specification, async page histories also with the asyncPages model under model-drawn schedules. A case = (file, open options, reader, history); non-trivial = at least 2 operations; distinct by the JSON of the case."
+	c.Res.Rule = "files of rows (id, optional, list, dictionary string, optional leaf in an optional group; every value identifies its row; the five columns have different page layouts) written with small pages (PageBufferSize 16..96), 1..4 row groups, data pages v1 and v2; also row groups of uneven sizes (Flush), unencrypted and encrypted (encrypted footer / plaintext footer, footer key only / column keys); opened with/without SkipPageIndex, sync/async, ReadBufferSize default/16/64/300/65536. Histories over {ReadPage | ReadRows(n in 1,3,64,1000) | Reader.Read(one row), SeekToRow(k: 0, page and row-group boundaries +-1, N-1, N, N+3, random), load the offset index, Reset}: a corpus (the repaired defects first), ALL histories of length 4 (quick) / 5 (thorough) over a 9..12 letter alphabet on 22-row files, random histories up to length 40 on 300-row files; run on ColumnChunk.Pages (every column), RowGroup.Rows, NewReader (ReadRows and Read), NewGenericReader (Read), and the column pages (multiPages) and rows of MultiRowGroup over all row groups, flat and nested 1..4 levels deep in fixed and random shapes (the outputs must be those of the flat concatenation). Every per-operation output (first row and count of the page/batch, io.EOF) is compared with the extracted model of that layer (page cursor; rowGroupRows over the page layouts of all five columns; multiPages; reader/Reader/GenericReader), a sample also with the position specification, async page histories also with the asyncPages model under model-drawn schedules. A case = (file, open options, reader, history); non-trivial = at least 2 operations; distinct by the JSON of the case."
 	var vm, vmRows, vmReader []string
 	addVmRows := func(cs *c08Case) {
 		if cs.Open.SkipIndex || cs.Open.Async || c08Has(cs.Ops, "g") {
@@ -1223,12 +1466,15 @@ func runC08(c *core.Ctx) {
 	}
 
 	// ---- corpus: the repaired defect first, then other hand-written histories
-	for _, v := range []int{2, 1} {
-		p := medium(v, 64)
+	corpus := func(p c08FileParams, opens []c08Open, v int) bool {
+		bucket := "corpus"
+		if p.Enc != "" {
+			bucket = "corpus/encrypted"
+		}
 		b, err := c08Build(p)
 		if err != nil {
 			c.Violation("file", err.Error(), p)
-			return
+			return false
 		}
 		for col := 0; col < c08NumCols; col++ {
 			lay := b.layout[0][col]
@@ -1240,7 +1486,7 @@ func runC08(c *core.Ctx) {
 			for _, n := range lay[:5] {
 				first5 += n
 			}
-			for _, o := range []c08Open{{}, {Async: true}, {SkipIndex: true}} {
+			for _, o := range opens {
 				hs := [][]string{
 					{"r", fmt.Sprintf("s%d", first5+1), "s2", "r", "r"},
 					{"r", fmt.Sprintf("s%d", first5+1), "s2", fmt.Sprintf("s%d", lay[0]+1), "r", "r"},
@@ -1254,8 +1500,8 @@ func runC08(c *core.Ctx) {
 				}
 				for _, h := range hs {
 					cs := &c08Case{File: p, Open: o, Target: "pages", RG: 0, Col: col, Ops: h}
-					c08Run(c, cs, "corpus")
-					if col == 0 && v == 2 {
+					c08Run(c, cs, bucket)
+					if col == 0 && v == 2 && p.Enc == "" {
 						c.Sample(cs)
 					}
 					addVm(cs)
@@ -1263,7 +1509,7 @@ func runC08(c *core.Ctx) {
 			}
 		}
 		for _, target := range []string{"rows", "reader", "generic", "multirows"} {
-			for _, o := range []c08Open{{}, {Async: true}, {SkipIndex: true}} {
+			for _, o := range opens {
 				hs := [][]string{
 					{"r10", "x", "s10", "r3"},
 					{"r3", "s200", "r64", "s109", "r3", "s110", "r1", "s5", "r1000"},
@@ -1280,19 +1526,78 @@ func runC08(c *core.Ctx) {
 				}
 				for _, h := range hs {
 					cs := &c08Case{File: p, Open: o, Target: target, RG: 0, Ops: h}
-					c08Run(c, cs, "corpus")
+					c08Run(c, cs, bucket)
 					addVm(cs)
 				}
 			}
 		}
 		for col := 0; col < c08NumCols; col++ {
-			for _, o := range []c08Open{{}, {Async: true}, {SkipIndex: true}} {
+			for _, o := range opens {
 				g1 := b.rgRows[0]
 				for _, h := range [][]string{
 					{"r", fmt.Sprintf("s%d", g1-1), "r", "r", "s2", "r", fmt.Sprintf("s%d", g1), "r"},
 					{fmt.Sprintf("s%d", b.total-1), "r", "r", fmt.Sprintf("s%d", g1+1), "r", fmt.Sprintf("s%d", b.total+4), "r", "s0", "r"},
 				} {
-					c08Run(c, &c08Case{File: p, Open: o, Target: "multipages", Col: col, Ops: h}, "corpus")
+					c08Run(c, &c08Case{File: p, Open: o, Target: "multipages", Col: col, Ops: h}, bucket)
+				}
+			}
+		}
+		return true
+	}
+	for _, v := range []int{2, 1} {
+		if !corpus(medium(v, 64), []c08Open{{}, {Async: true}, {SkipIndex: true}, {ReadBuf: 64}}, v) {
+			return
+		}
+	}
+	// the same histories on encrypted files (every page is authenticated under
+	// its ordinal in the chunk, which every repositioning must keep in step),
+	// with read buffers smaller than a page, of a few pages, and larger than the
+	// chunk: the outputs are those of the unencrypted file
+	encOpens := []c08Open{{}, {Async: true}, {SkipIndex: true}, {ReadBuf: 16}, {ReadBuf: 300}, {ReadBuf: 1 << 16}}
+	for i, enc := range []string{"footer+column-keys", "plaintext-footer", "footer", "plaintext-footer+column-keys"} {
+		if c.Quick() && i >= 2 {
+			break
+		}
+		for _, v := range []int{2, 1} {
+			p := medium(v, 64)
+			p.Enc = enc
+			if !corpus(p, encOpens, v) {
+				return
+			}
+		}
+	}
+	// nested multi row groups: row groups of uneven sizes combined with
+	// MultiRowGroup in every shape of depth 1..3, seeks at every row group
+	// boundary (-1, 0, +1) in ascending and in descending order
+	for _, v := range []int{2, 1} {
+		p := c08FileParams{Rows: 300, PageBuf: 64, Version: v, Batch: 13, Flush: "40,90,25,70,30"}
+		b, err := c08Build(p)
+		if err != nil {
+			c.Violation("file", err.Error(), p)
+			return
+		}
+		for _, nest := range c08NestShapes(len(b.rgRows)) {
+			for _, o := range []c08Open{{}, {Async: true}, {SkipIndex: true}} {
+				for col := 0; col <= c08NumCols; col++ {
+					target, read := "multipages", "r"
+					if col == c08NumCols {
+						target, read = "multirows", "r3"
+					}
+					var up, down, around []string
+					around = append(around, read)
+					for g := 1; g <= len(b.rgOff); g++ {
+						bd := b.total
+						if g < len(b.rgOff) {
+							bd = b.rgOff[g]
+						}
+						up = append(up, fmt.Sprintf("s%d", bd), read)
+						down = append([]string{fmt.Sprintf("s%d", bd), read, read}, down...)
+						around = append(around, fmt.Sprintf("s%d", bd+1), read, fmt.Sprintf("s%d", bd-1), read, read)
+					}
+					for _, h := range [][]string{up, down, around} {
+						cs := &c08Case{File: p, Open: o, Target: target, Col: col % c08NumCols, Nest: nest, Ops: h}
+						c08Run(c, cs, "corpus/nested")
+					}
 				}
 			}
 		}
@@ -1394,16 +1699,98 @@ func runC08(c *core.Ctx) {
 				fmt.Sprintf("exhaustive/multipages/v%d", v), 0)
 		}
 	}
+	// encrypted files and nested multi row groups: all histories one operation shorter
+	for _, v := range versions {
+		if c.Quick() && v == 1 {
+			continue
+		}
+		for _, enc := range []string{"footer", "plaintext-footer+column-keys"} {
+			p := small(v)
+			p.Enc = enc
+			b, err := c08Build(p)
+			if err != nil {
+				c.Violation("file", err.Error(), p)
+				return
+			}
+			for col := 0; col < c08NumCols; col++ {
+				for _, o := range []c08Open{{}, {ReadBuf: 64}, {SkipIndex: true}} {
+					if c.Quick() && (o.SkipIndex || (o.ReadBuf != 0) != (col == 3)) {
+						// quick: default read buffer; the dictionary column with a 64-byte buffer
+						continue
+					}
+					alphabet := []string{"r"}
+					for _, k := range c08SeekPoints(b.layout[0][col], b.rgRows[0], true) {
+						alphabet = append(alphabet, fmt.Sprintf("s%d", k))
+					}
+					if o.SkipIndex {
+						alphabet = append(alphabet, "l")
+					}
+					exhaustive(c08Case{File: p, Open: o, Target: "pages", Col: col}, alphabet, length-1,
+						fmt.Sprintf("exhaustive/pages/v%d/encrypted", v), 0)
+				}
+			}
+			N := b.rgRows[0]
+			b1 := b.layout[0][0][0]
+			ralpha := []string{"r1", "r3", "r64", "s0", fmt.Sprintf("s%d", b1-1), fmt.Sprintf("s%d", b1), fmt.Sprintf("s%d", N-1), fmt.Sprintf("s%d", N), "x"}
+			exhaustive(c08Case{File: p, Target: "rows"}, ralpha, length-1, fmt.Sprintf("exhaustive/rows/v%d/encrypted", v), 0)
+		}
+		p4 := c08FileParams{Rows: 22, PageBuf: 16, Version: v, Batch: 5, Flush: "5,8,3"}
+		b4, err := c08Build(p4)
+		if err != nil {
+			c.Violation("file", err.Error(), p4)
+			return
+		}
+		if len(b4.rgRows) != 4 {
+			c.Violation("file", fmt.Sprintf("expected 4 row groups, got %v", b4.rgRows), p4)
+			return
+		}
+		palpha, nalpha := []string{"r"}, []string{"r1", "r3", "r64", "x"}
+		seen := map[int64]bool{}
+		for g := range b4.rgOff {
+			for _, k := range []int64{b4.rgOff[g], b4.rgOff[g] + 1, b4.rgOff[g] + b4.rgRows[g] - 1} {
+				if !seen[k] && (g < 3 || k == b4.rgOff[g]) {
+					seen[k] = true
+					palpha = append(palpha, fmt.Sprintf("s%d", k))
+					if k != b4.rgOff[g]+1 || g == 1 {
+						nalpha = append(nalpha, fmt.Sprintf("s%d", k))
+					}
+				}
+			}
+		}
+		palpha = append(palpha, fmt.Sprintf("s%d", b4.total), fmt.Sprintf("s%d", b4.total+3))
+		nalpha = append(nalpha, fmt.Sprintf("s%d", b4.total))
+		for _, nest := range c08NestShapes(4) {
+			for _, col := range []int{0, 2, 4} {
+				if c.Quick() && col != 2 {
+					continue
+				}
+				exhaustive(c08Case{File: p4, Target: "multipages", Col: col, Nest: nest}, palpha, length-1,
+					fmt.Sprintf("exhaustive/multipages/v%d/nested", v), 0)
+			}
+			exhaustive(c08Case{File: p4, Target: "multirows", Nest: nest}, nalpha, length-1,
+				fmt.Sprintf("exhaustive/multirows/v%d/nested", v), 0)
+		}
+	}
 	c.Res.Exhaustive = true
+	c.Note("exhaustive, one operation shorter: the page and row alphabets on encrypted 22-row files (encrypted footer; plaintext footer with column keys; read buffer default and 64 bytes), and {ReadPage, SeekToRow(first row, second row, last row of every row group, N, N+3)} / {ReadRows 1/3/64, Reset, SeekToRow(first and last row of every row group, N)} on the column pages and the rows of a file of 4 row groups of 5, 8, 3 and 6 rows combined with MultiRowGroup in the shapes %v", c08NestShapes(4))
 	c.Note("exhaustive: all histories of length %d (async pages: %d) over the alphabets {ReadPage, SeekToRow(0, first page boundary -1/0/+1, page 5 boundary 0/+1, N-1, N, N+3)[, load index]} and {ReadRows 1/3/64[, Reader.Read], SeekToRow(0, boundary-1, boundary[, +1], N-1, N), Reset} on 22-row files; the same on the rows of the MultiRowGroup over both row groups, and {ReadPage, SeekToRow(0, row-group boundary -1/0/+1, first page boundary of each row group, N-1, N, N+3)} on its column pages (multiPages)", length, length-1)
 
 	// ---- random histories on larger files
 	nRand := c.N(2500, 40000)
+	nEnc, nBuf, nNest := 0, 0, 0
 	pbs := []int{24, 64, 96}
 	for i := 0; i < nRand; i++ {
 		p := medium(1+c.Rng.Intn(2), pbs[c.Rng.Intn(len(pbs))])
-		if c.Rng.Intn(4) == 0 {
+		switch c.Rng.Intn(8) {
+		case 0, 1:
 			p.RGRows = 0
+		case 2, 3:
+			// row groups of uneven sizes, a single-row one among them
+			p.RGRows, p.Flush = 0, []string{"40,90,25,70,30", "7,120,60,1,50"}[c.Rng.Intn(2)]
+		}
+		if c.Rng.Intn(3) == 0 {
+			p.Enc = []string{"footer", "plaintext-footer", "footer+column-keys", "plaintext-footer+column-keys"}[c.Rng.Intn(4)]
+			nEnc++
 		}
 		b, err := c08Build(p)
 		if err != nil {
@@ -1411,6 +1798,10 @@ func runC08(c *core.Ctx) {
 			return
 		}
 		cs := &c08Case{File: p, Open: c08Open{SkipIndex: c.Rng.Intn(3) == 0, Async: c.Rng.Intn(3) == 0}}
+		if c.Rng.Intn(3) == 0 {
+			cs.Open.ReadBuf = []int{16, 64, 300, 1 << 16}[c.Rng.Intn(4)]
+			nBuf++
+		}
 		cs.Target = []string{"pages", "pages", "rows", "reader", "generic", "multipages", "multirows"}[c.Rng.Intn(7)]
 		if len(b.rgRows) < 2 && (cs.Target == "multipages" || cs.Target == "multirows") {
 			cs.Target = "rows"
@@ -1426,6 +1817,10 @@ func runC08(c *core.Ctx) {
 			cs.RG = 0
 			if cs.Target != "multipages" {
 				cs.Col = 0
+			}
+			if (cs.Target == "multipages" || cs.Target == "multirows") && c.Rng.Intn(3) != 0 {
+				cs.Nest = c08RandomNest(c.Rng, len(b.rgRows), 1+c.Rng.Intn(4))
+				nNest++
 			}
 			for g := range b.rgRows {
 				for _, k := range c08SeekPoints(b.layout[g][c.Rng.Intn(c08NumCols)], b.rgRows[g], false) {
@@ -1469,6 +1864,7 @@ func runC08(c *core.Ctx) {
 			addVm(cs)
 		}
 	}
+	c.Note("random histories: %d on encrypted files, %d with a ReadBufferSize of 16, 64, 300 or 65536 bytes, %d on randomly nested multi row groups (1..4 levels of MultiRowGroup)", nEnc, nBuf, nNest)
 	for cl, n := range c08Reported {
 		if n > 1 {
 			c.Note("class %s: %d failing histories in total (first one shrunk and reported)", cl, n)
